@@ -1,11 +1,13 @@
 """C13 — a MuSig secret nonce can sign at most once, whatever happens (a property of call HISTORIES).
 
 Two engines over the same abstract single-use model:
-  * `histories`  bounded EXHAUSTIVE enumeration (one case = 28 histories sharing a prefix) of every call history of depth 3 (quick, 28^3 = 21 952) / depth 4 (thorough,
-                 28^4 = 614 656) over 14 operations x 2 nonce slots; each history is executed by the C sequence runner
-                 `vf_c13_run` (csrc/shim_C13.inc, public API only) and its per-step observation vector is compared with the model;
+  * `histories`  bounded EXHAUSTIVE enumeration (one case = 34 histories sharing a prefix x the case's byte offsets) of every call history of
+                 depth 3 (quick, 34^3 = 39 304) / depth 4 (thorough, 34^4 = 1 336 336) over 17 operations x 2 nonce slots, each at an even and an odd
+                 object offset, plus every history one step shorter at all 16 offsets; executed by the C sequence runner `vf_c13_run`
+                 (csrc/shim_C13.inc, public API only, all objects in an arena at 16k + offset); per-step observations compared with the model;
   * `random_histories`  Hypothesis histories of up to 50 calls over 3 slots / 3 signers driven call-by-call through ctypes, fresh
-                 randomness, every optional argument varied, byte-level inspection of secnonce and randomness buffer after every call.
+                 randomness, every optional argument varied, pointer aliasing (session_secrand32 == seckey / extra_input32), every object at a
+                 drawn byte offset, byte-level inspection of secnonce and randomness buffer after every call.
 """
 import ctypes
 import hashlib
@@ -20,71 +22,96 @@ from vf.core import Test
 from vf.lib import buf, ptr_array
 
 N = ec.N
-NOPS = 14
+NOPS = 17
 NCODES = 2 * NOPS
+OBS = 12
 OPNAMES = ["gen_ok", "gen_zero_rand", "gen_bad_seckey", "gen_counter", "gen_null_pubnonce", "gen_bad_cache",
-           "sign_s1", "sign_s2", "sign_negated_key", "sign_other_key", "sign_null_out", "sign_bad_cache", "sign_bad_session", "sign_null_keypair"]
+           "sign_s1", "sign_s2", "sign_negated_key", "sign_other_key", "sign_null_out", "sign_bad_cache", "sign_bad_session", "sign_null_keypair",
+           "gen_alias_extra", "gen_alias_seckey", "gen_reuse_rand_buffer"]
+GEN_OPS = (0, 1, 2, 3, 4, 5, 14, 15, 16)
 
-RULE = ("histories: ALL sequences of depth 3 (quick: 28^3 = 21952) / 4 (thorough: 28^4 = 614656; one evaluated case = the 28 histories sharing a prefix, class "
-        "'histories:history' counts single histories per build) over the alphabet {6 nonce-generation variants "
-        "(valid, zero randomness, invalid seckey, counter entry point, NULL pubnonce, invalid keyagg cache), 8 partial-sign variants (correct keypair "
-        "session 1 / session 2, keypair of the negated key, unrelated keypair, NULL output, invalid cache, invalid session, NULL keypair)} x 2 secnonce slots, "
-        "executed through the public API by a C sequence runner; random_histories: Hypothesis histories of <= 50 calls over 3 slots and 3 signers with every "
-        "optional argument / fault varied.  Oracle: abstract single-use model (slot ZERO | LIVE(bound key)); after every call: return value, secnonce all-zero "
-        "<=> not LIVE, randomness wiped on success, illegal callback fired where the header says so and never on a valid call, a produced partial signature "
-        "verifies for the slot's pubnonce (and not under the other session).  non-trivial = the history contains a FAILING call followed by a later call on the same slot")
+RULE = ("histories: ALL sequences of depth 3 (quick: 34^3 = 39304) / 4 (thorough: 34^4 = 1336336) over the alphabet {9 nonce-generation variants (valid, zero "
+        "randomness, invalid seckey, counter entry point, NULL pubnonce, invalid keyagg cache, session_secrand32 ALIASING extra_input32, session_secrand32 ALIASING seckey, "
+        "randomness buffer reused as the previous call left it), 8 partial-sign variants (correct keypair session 1 / session 2, keypair of the negated key, unrelated "
+        "keypair, NULL output, invalid cache, invalid session, NULL keypair)} x 2 secnonce slots, each executed with all objects at an even AND at an odd byte offset "
+        "(0..15) from a 16-byte boundary, plus all histories one step shorter at ALL 16 offsets; executed through the public API by a C sequence runner (one evaluated case = "
+        "the 34 histories sharing a prefix x its offsets; class 'histories:run' counts single executions, 'histories:history_depth=k' single histories per build); "
+        "random_histories: Hypothesis histories of <= 50 calls over 3 slots and 3 signers with every optional argument / fault / pointer aliasing varied and every object "
+        "at a drawn byte offset.  Oracle: abstract single-use model (slot ZERO | LIVE(bound key)); after every call: return value, secnonce all-zero <=> not LIVE, "
+        "randomness wiped on success (also when the same pointer was passed as seckey / extra input), a zeroed randomness buffer refused, illegal callback fired where the "
+        "header says so and never on a valid call, no two generated secnonces equal, a produced partial signature verifies for the slot's pubnonce (and not under the other "
+        "session).  non-trivial = the history contains a FAILING call followed by a later call on the same slot")
 ASSUMPTIONS = ["reading the 132 secnonce bytes / the randomness buffer directly is how the property defines its observation (observe_at)",
                "illegal-argument callbacks are replaced by counting stubs that return (documented use of secp256k1_context_set_illegal_callback)",
                "callback expectations are asserted only where the header states them (NULL arguments, zeroed secnonce, keypair mismatch) and 'no callback on a successful call'; "
                "for uninitialised cache/session objects, zero randomness and invalid seckey either behaviour is accepted",
+               "all opaque musig / extrakeys types are structs of unsigned char arrays (alignment requirement 1): any byte address is a legal object address",
+               "passing the same pointer as session_secrand32 and as seckey / extra_input32 is legal input (the header forbids nothing of the kind); 'invalidated on success' then "
+               "applies to those 32 bytes whatever else they were passed as",
                "pyref.musig is a correct reading of BIP-327 (validated against the BIP's vectors) - used only to double-check produced partial signatures in random_histories"]
 
 
 # ------------------------------------------------------------------ the abstract model (shared by both tests)
-def model_enum(ops):
-    """-> list of expectation dicts for the enumeration alphabet.  ill: 'zero' | 'ge1' | 'any'."""
-    live = [False, False]
-    out = []
-    for code in ops:
+class Model:
+    """Single-use model over two slots.  step(code, rand_was_zero) -> expectation dict.  ill: 'zero' | 'ge1' | 'any'.
+    rand_was_zero is an INPUT of op 16 (content of the reused buffer before the call), observed by the runner."""
+
+    def __init__(self):
+        self.live = [False, False]
+
+    def step(self, code, rand_was_zero=None):
         op, slot = code >> 1, code & 1
-        if op <= 5:
-            ok = op in (0, 3)
-            live[slot] = ok
-            out.append({"ret": 1 if ok else 0, "zero": 0 if ok else 1, "wiped": 1 if op == 0 else 2,
-                        "ill": "zero" if ok else ("ge1" if op == 4 else "any"), "ver": 2, "ver_other": 2})
-        else:
-            was = live[slot]
-            ok = was and op in (6, 7)
-            live[slot] = False
-            if ok:
-                ill = "zero"
-            elif op in (11, 12):
-                ill = "any"          # uninitialised cache / session object (alone or together with a dead nonce): either behaviour accepted
-            elif not was:
-                ill = "ge1"          # header: "will abort if given a secnonce that is all zeros"
-            elif op in (8, 9):
-                ill = "ge1"          # header: nonce not generated for this keypair -> "the illegal_callback is called"
-            elif op in (10, 13):
-                ill = "ge1"          # NULL for a NONNULL argument
+        if op in GEN_OPS:
+            if op == 16:
+                ok = not rand_was_zero
             else:
-                ill = "any"
-            out.append({"ret": 1 if ok else 0, "zero": 1, "wiped": 2, "ill": ill, "ver": 1 if ok else 2, "ver_other": 0 if ok else 2})
-    return out
+                ok = op in (0, 3, 14, 15)
+            self.live[slot] = ok
+            return {"ret": 1 if ok else 0, "zero": 0 if ok else 1, "wiped": 1 if (ok and op != 3) else 2,
+                    "ill": "zero" if ok else ("ge1" if op == 4 else "any"), "ver": 2, "ver_other": 2}
+        was = self.live[slot]
+        ok = was and op in (6, 7)
+        self.live[slot] = False
+        if ok:
+            ill = "zero"
+        elif op in (11, 12):
+            ill = "any"          # uninitialised cache / session object (alone or together with a dead nonce): either behaviour accepted
+        elif not was:
+            ill = "ge1"          # header: "will abort if given a secnonce that is all zeros"
+        elif op in (8, 9):
+            ill = "ge1"          # header: nonce not generated for this keypair -> "the illegal_callback is called"
+        elif op in (10, 13):
+            ill = "ge1"          # NULL for a NONNULL argument
+        else:
+            ill = "any"
+        return {"ret": 1 if ok else 0, "zero": 1, "wiped": 2, "ill": ill, "ver": 1 if ok else 2, "ver_other": 0 if ok else 2}
 
 
 def classify_enum(ops):
-    """-> (nontrivial, classes)"""
+    """-> (nontrivial, classes).  Labels only (the reused-buffer state is predicted assuming a failed call leaves the buffer alone)."""
     live = [False, False]
     had_fail = [False, False]
     nt = False
     cl = set()
     signed = [False, False]
+    rz = True                      # randomness buffer currently all zero
     for code in ops:
         op, slot = code >> 1, code & 1
         if had_fail[slot]:
             nt = True
-        if op <= 5:
-            ok = op in (0, 3)
+        if op in GEN_OPS:
+            if op == 16:
+                ok = not rz
+                cl.add("reuse_rand_left_by_failed_gen" if ok else "reuse_zeroed_rand_refused")
+                rz = True
+            else:
+                ok = op in (0, 3, 14, 15)
+                if op in (0, 1, 14):
+                    rz = True
+                elif op in (2, 4, 5):
+                    rz = False
+            if op in (14, 15):
+                cl.add(OPNAMES[op])
             if live[slot] and not ok:
                 cl.add("failed_gen_over_live_nonce")
             if live[slot] and ok:
@@ -125,53 +152,73 @@ def enum_params(seed_hex):
     return sk_a + sk_b + h(b"m1") + h(b"m2") + h(b"r")
 
 
+# (even, odd) offset pairs cycled over the prefixes: every full-depth history runs once at an even and once at an odd address
+OFFSET_PAIRS = [(0, 1), (8, 7), (0, 9), (8, 15), (4, 3), (2, 5), (6, 11), (12, 13), (10, 1), (14, 7)]
+
+
+def _prefix(i, k):
+    out = []
+    for _ in range(k):
+        out.append(i % NCODES)
+        i //= NCODES
+    out.reverse()
+    return out
+
+
 def histories(tier, shard, nshards):
-    """One case = the 28 histories that share a (depth-1)-step prefix (keeps the driver's per-case journaling out of the inner loop)."""
+    """One case = the 34 histories that share a prefix, each executed at the case's byte offsets (keeps the driver's per-case
+    journaling out of the inner loop).  Sweep A: full depth, one even + one odd offset; sweep B: one step shorter, all 16 offsets."""
     depth = 3 if tier == "quick" else 4
     seed = os.environ.get("VERIF_SEED", "1") or "1"
-    total = NCODES ** (depth - 1)
-    for i in range(shard, total, nshards):
-        prefix = []
-        x = i
-        for _ in range(depth - 1):
-            prefix.append(x % NCODES)
-            x //= NCODES
-        prefix.reverse()
-        # 64 different parameter blocks per run (keys, messages, randomness), chosen by prefix index
-        ph = hashlib.sha256(("C13|%s|%d" % (seed, i % 64)).encode()).hexdigest()[:32]
-        yield {"prefix": prefix, "p": ph}
+    n = 0
+    for sweep, plen in (("A", depth - 1), ("B", depth - 2)):
+        for i in range(NCODES ** plen):
+            n += 1
+            if n % nshards != shard:
+                continue
+            # 64 different parameter blocks per run (keys, messages, randomness), chosen by prefix index
+            ph = hashlib.sha256(("C13|%s|%d" % (seed, i % 64)).encode()).hexdigest()[:32]
+            offs = list(OFFSET_PAIRS[i % len(OFFSET_PAIRS)]) if sweep == "A" else list(range(16))
+            yield {"prefix": _prefix(i, plen), "p": ph, "offs": offs, "sweep": sweep}
 
 
-def check_history(env, fn, blobbuf, ops):
-    obs = buf(8 * len(ops))
+def check_history(env, fn, blobbuf, ops, off):
+    obs = buf(OBS * len(ops))
     opsb = buf(len(ops), bytes(ops))
-    r = fn(env.lib.ctx, blobbuf, opsb, c_size_t(len(ops)), obs)
+    r = fn(env.lib.ctx, blobbuf, ctypes.c_uint(off), opsb, c_size_t(len(ops)), obs)
     env.require(r == 1, "C13 runner failed")
-    exp = model_enum(ops)
     o = obs.raw
-    for i, e in enumerate(exp):
-        ret, zero, wiped, ill, err, ver, other_same, ver_other = o[8 * i:8 * i + 8]
-        if (ret == e["ret"] and zero == e["zero"] and (e["wiped"] == 2 or wiped == e["wiped"]) and err == 0 and other_same == 1
+    m = Model()
+    for i, code in enumerate(ops):
+        ret, zero, wiped, ill, err, ver, other_same, ver_other, was_zero, dup, sec_mod, rnd_mod = o[OBS * i:OBS * i + OBS]
+        e = m.step(code, rand_was_zero=(was_zero == 1))
+        if (ret == e["ret"] and zero == e["zero"] and (e["wiped"] == 2 or wiped == e["wiped"]) and err == 0 and other_same == 1 and dup == 0
                 and (e["ill"] == "any" or (e["ill"] == "zero" and ill == 0) or (e["ill"] == "ge1" and ill >= 1))
                 and (e["ver"] == 2 or (ver == 1 and ver_other == 0))):
             continue
-        name = "%s[slot %d]" % (OPNAMES[ops[i] >> 1], ops[i] & 1)
-        ctxmsg = "step %d (%s) of history %s" % (i, name, " ".join("%s/%d" % (OPNAMES[c >> 1], c & 1) for c in ops))
-        det = {"step": i, "history": list(ops), "observed": list(o[8 * i:8 * i + 8]), "expected": e}
+        name = "%s[slot %d]" % (OPNAMES[code >> 1], code & 1)
+        ctxmsg = "step %d (%s) of history %s with objects at 16k+%d (secnonce address mod 16 = %d, randomness mod 16 = %d)" % (
+            i, name, " ".join("%s/%d" % (OPNAMES[c >> 1], c & 1) for c in ops), off, sec_mod, rnd_mod)
+        det = {"step": i, "history": list(ops), "offset": off, "observed": list(o[OBS * i:OBS * i + OBS]), "expected": e}
         env.require(ret == e["ret"], "%s: returned %d, single-use model says %d" % (ctxmsg, ret, e["ret"]), **det)
         env.require(zero == e["zero"], "%s: secnonce all-zero=%d, model says %d%s" % (
-            ctxmsg, zero, e["zero"], " (a LIVE secret nonce survived a call that must consume/invalidate it)" if e["zero"] else ""), **det)
+            ctxmsg, zero, e["zero"], " (a LIVE secret nonce / secret bytes survived a call that must consume/invalidate it)" if e["zero"] else ""), **det)
         if e["wiped"] != 2:
-            env.require(wiped == e["wiped"], "%s: session_secrand32 wiped=%d after a successful nonce_gen" % (ctxmsg, wiped), **det)
+            env.require(wiped == e["wiped"], "%s: session_secrand32 not all-zero after a successful nonce_gen (the same bytes would be accepted again)" % ctxmsg, **det)
         if e["ill"] == "zero":
             env.require(ill == 0, "%s: illegal callback fired %d time(s) on a valid call" % (ctxmsg, ill), **det)
         elif e["ill"] == "ge1":
             env.require(ill >= 1, "%s: documented illegal-argument condition did not reach the illegal callback" % ctxmsg, **det)
         env.require(err == 0, "%s: error callback fired" % ctxmsg, **det)
         env.require(other_same == 1, "%s: the OTHER slot's secnonce bytes changed" % ctxmsg, **det)
+        env.require(dup == 0, "%s: generated secnonce is byte-identical to one generated earlier in this history (nonce reuse)" % ctxmsg, **det)
         if e["ver"] != 2:
             env.require(ver == 1, "%s: produced partial signature does not verify for the slot's pubnonce" % ctxmsg, **det)
             env.require(ver_other == 0, "%s: partial signature also verifies under the other session" % ctxmsg, **det)
+
+
+def off_class(off):
+    return "offset:odd" if off & 1 else ("offset:aligned16" if off == 0 else ("offset:aligned8" if off == 8 else "offset:even_unaligned"))
 
 
 def run_enum(env, case):
@@ -192,19 +239,38 @@ def run_enum(env, case):
     blobbuf = buf(len(blob), blob)
     classes = []
     nt_any = False
+    offs = case.get("offs", [0])
     for last in range(NCODES):
         ops = list(case["prefix"]) + [last]
-        check_history(env, fn, blobbuf, ops)
         nt, cl = classify_enum(ops)
         nt_any = nt_any or nt
-        # class labels are emitted once per HISTORY (so the histogram in the evidence file counts histories, not cases)
-        classes += cl + ["history", "history_depth=%d" % len(ops)] + (["history_nontrivial"] if nt else [])
+        for k, off in enumerate(offs):
+            check_history(env, fn, blobbuf, ops, off)
+            # class labels are emitted once per EXECUTION (so the histogram in the evidence file counts executions, not cases)
+            classes += cl + ["run", off_class(off)]
+            if k == 0:
+                classes += ["history_depth=%d" % len(ops)] + (["history_nontrivial_depth=%d" % len(ops)] if nt else [])
     return nt_any, classes
 
 
 # ------------------------------------------------------------------ random longer histories, driven call by call
 NSLOT = 3
 NSIGNER = 3
+
+
+# byte offset of an object from a 16-byte boundary: odd ones weighted (all these types have alignment requirement 1)
+off_st = st.sampled_from([0, 8, 1, 1, 3, 5, 7, 7, 9, 9, 11, 13, 15, 15, 2, 4, 6, 10, 12, 14])
+
+
+def obuf(n, off, init=None):
+    """n-byte object whose address is congruent to `off` modulo 16 (view into a larger vf.lib.buf; the view keeps the base alive)"""
+    base = buf(n + 32)
+    shift = (off - ctypes.addressof(base)) % 16
+    v = (ctypes.c_char * n).from_buffer(base, shift)
+    assert ctypes.addressof(v) % 16 == off % 16
+    if init is not None:
+        ctypes.memmove(v, bytes(init), len(init))
+    return v
 
 
 @st.composite
@@ -216,7 +282,10 @@ def gen_step(draw):
          "sk": draw(st.sampled_from(["own", "own", "own", "none", "other", "zero", "n", "max"])),
          "msg": draw(st.booleans()), "cache": draw(st.sampled_from(["ok", "ok", "none", "none", "bad"])),
          "extra": draw(st.one_of(st.none(), gens.hexbytes(32))),
-         "null": draw(st.sampled_from([None] * 8 + ["pubnonce", "secrand", "pubkey", "keypair"]))}
+         "null": draw(st.sampled_from([None] * 8 + ["pubnonce", "secrand", "pubkey", "keypair"])),
+         # pointer aliasing: session_secrand32 is the SAME pointer as extra_input32 / as seckey (rand entry point, fresh randomness only)
+         "alias": draw(st.sampled_from([None] * 5 + ["extra", "seckey", "extra", "seckey"])),
+         "roff": draw(off_st)}
     return s
 
 
@@ -237,7 +306,7 @@ def random_history(draw):
     one = st.one_of(gen_step(), sign_step(), sign_step())
     steps = draw(st.one_of(st.lists(one, min_size=2, max_size=12), st.lists(one, min_size=12, max_size=30), st.lists(one, min_size=30, max_size=50)))
     return {"sks": sks, "msgs": [draw(gens.hexbytes(32)), draw(gens.hexbytes(32))], "xtweak": draw(st.one_of(st.none(), gens.seckey_valid)),
-            "steps": steps}
+            "soff": [draw(off_st) for _ in range(NSLOT)], "koff": draw(off_st), "steps": steps}
 
 
 def run_random(env, case):
@@ -245,22 +314,24 @@ def run_random(env, case):
     d = lib.dll
     ctx = lib.ctx
     sks = case["sks"]
+    soff = case.get("soff", [0] * NSLOT)
+    koff = case.get("koff", 0)
     lib.reset()
     kps, pks, pk33 = [], [], []
     for sk in sks:
-        r, kp = lib.keypair_create(ec.i2b(sk))
-        assert r == 1
-        pk = buf(64)
+        kp = obuf(96, koff)
+        assert d.secp256k1_keypair_create(ctx, kp, ec.i2b(sk)) == 1
+        pk = obuf(64, koff)
         assert d.secp256k1_keypair_pub(ctx, pk, kp) == 1
         kps.append(kp)
         pks.append(pk)
         pk33.append(ec.ser33(ec.mulg(sk)))
     negkps = []
     for sk in sks:
-        r, kp = lib.keypair_create(ec.i2b(N - sk))
-        assert r == 1
+        kp = obuf(96, koff)
+        assert d.secp256k1_keypair_create(ctx, kp, ec.i2b(N - sk)) == 1
         negkps.append(kp)
-    cache = buf(197)
+    cache = obuf(197, koff)
     assert d.secp256k1_musig_pubkey_agg(ctx, None, cache, ptr_array(pks), c_size_t(NSIGNER)) == 1
     kctx = M.key_agg(pk33)
     if case["xtweak"] is not None:
@@ -270,8 +341,8 @@ def run_random(env, case):
             kctx = k2
         else:   # negligible (tweak == -key); rebuild untweaked
             assert d.secp256k1_musig_pubkey_agg(ctx, None, cache, ptr_array(pks), c_size_t(NSIGNER)) == 1
-    bad_cache = buf(197)
-    bad_session = buf(133)
+    bad_cache = obuf(197, koff)
+    bad_session = obuf(133, koff)
     # sessions: any aggregate nonce will do (a partial signature is checked against the signer's OWN pubnonce)
     hs, hp = buf(132), buf(132)
     assert d.secp256k1_musig_nonce_gen(ctx, hs, hp, buf(32, b"\x42" * 32), None, pks[0], None, None, None) == 1
@@ -282,18 +353,22 @@ def run_random(env, case):
     msgs = [bytes.fromhex(m) for m in case["msgs"]]
     sessions, rsessions = [], []
     for m in msgs:
-        s = buf(133)
+        s = obuf(133, koff)
         assert d.secp256k1_musig_nonce_process(ctx, s, agg, m, cache, None) == 1
         sessions.append(s)
         rsessions.append(M.Session(agg66.raw, kctx, m))
     assert lib.illegal() == 0 and lib.errors() == 0
 
-    sec = [buf(132) for _ in range(NSLOT)]
-    pub = [buf(132) for _ in range(NSLOT)]
+    sec = [obuf(132, soff[j]) for j in range(NSLOT)]
+    pub = [obuf(132, soff[j]) for j in range(NSLOT)]
+    if any(o & 1 for o in soff):
+        classes_pre = ["secnonce_at_odd_address"]
+    else:
+        classes_pre = []
     state = [None] * NSLOT            # None = ZERO, else {"signer": i, "pubnonce": 132 bytes}
     had_fail = [False] * NSLOT
     last_rand = None
-    classes = set()
+    classes = set(classes_pre)
     nt = False
     successes = 0
 
@@ -322,15 +397,30 @@ def run_random(env, case):
                 faults = [null in ("pubnonce", "keypair"), st_["cache"] == "bad"]
                 randbuf = None
             else:
+                roff = st_.get("roff", 0)
+                alias = st_.get("alias")
                 if st_["rand"] == "zero":
-                    randbuf = buf(32)
+                    randbuf = obuf(32, roff)
+                    alias = None
                 elif st_["rand"] == "reuse" and last_rand is not None:
                     randbuf = last_rand
+                    alias = None
                     classes.add("reuse_rand_buffer")
+                    if zero(randbuf):
+                        classes.add("reuse_wiped_rand_buffer")
                 elif st_["rand"] in ("zero", "reuse"):
-                    randbuf = buf(32, b"\x01" * 32)
+                    randbuf = obuf(32, roff, b"\x01" * 32)
+                    alias = None
                 else:
-                    randbuf = buf(32, bytes.fromhex(st_["rand"]))
+                    randbuf = obuf(32, roff, bytes.fromhex(st_["rand"]))
+                if alias == "seckey" and seckey is not None and null != "secrand":
+                    # the 32 secret-key bytes double as the session randomness: ONE buffer passed for both arguments
+                    randbuf = obuf(32, roff, seckey)
+                    seckey = randbuf
+                elif alias == "extra" and null != "secrand":
+                    extra = randbuf
+                else:
+                    alias = None
                 rand_zero = zero(randbuf)
                 pkarg = None if null == "pubkey" else pks[g]
                 rb = None if null == "secrand" else randbuf
@@ -347,8 +437,13 @@ def run_random(env, case):
                 env.require(not zero(sec[slot]), "%s: secnonce is all zero after successful generation" % where, step=si)
                 env.require(dill == 0, "%s: illegal callback on a valid nonce generation: %s" % (where, lib.cbmsg()), step=si)
                 if randbuf is not None:
-                    env.require(zero(randbuf), "%s: session_secrand32 not wiped after successful nonce_gen" % where, step=si)
+                    env.require(zero(randbuf), "%s: session_secrand32 (address mod 16 = %d%s) not all-zero after successful nonce_gen: the same bytes would be accepted again" % (
+                        where, ctypes.addressof(randbuf) % 16, (", same pointer as " + alias) if alias else ""), step=si)
                     classes.add("gen_ok_rand")
+                    if alias:
+                        classes.add("gen_alias_" + alias)
+                    if ctypes.addressof(randbuf) & 1:
+                        classes.add("rand_at_odd_address")
                 else:
                     classes.add("gen_ok_counter")
                 if state[slot] is not None:
@@ -371,7 +466,7 @@ def run_random(env, case):
             kp = {"bound": kps[bound], "neg": negkps[bound], "other": kps[(bound + 1) % NSIGNER], "other2": kps[(bound + 2) % NSIGNER]}[key]
             ses = bad_session if st_["session"] == "bad" else sessions[st_["session"]]
             ch = bad_cache if st_["cache"] == "bad" else cache
-            out = buf(36)
+            out = obuf(36, koff)
             ret = d.secp256k1_musig_partial_sign(ctx, None if null == "out" else out, sec[slot], None if null == "keypair" else kp,
                                                  None if null == "cache" else ch, None if null == "session" else ses)
             dill = lib.illegal() - ill0
@@ -388,9 +483,11 @@ def run_random(env, case):
                 s32, p66 = buf(32), buf(66)
                 d.secp256k1_musig_partial_sig_serialize(ctx, s32, out)
                 d.secp256k1_musig_pubnonce_serialize(ctx, p66, pnb)
-                env.require(M.partial_sig_verify(s32.raw, p66.raw, pk33[bound], rsessions[st_["session"]]),
-                            "%s: produced partial signature fails the BIP-327 verification equation" % where, step=si)
-                if msgs[0] != msgs[1]:
+                # independent double-check with the reference (big-integer arithmetic is slow in sanitizer workers: first two signatures of a case)
+                if successes <= 2:
+                    env.require(M.partial_sig_verify(s32.raw, p66.raw, pk33[bound], rsessions[st_["session"]]),
+                                "%s: produced partial signature fails the BIP-327 verification equation" % where, step=si)
+                if msgs[0] != msgs[1] and successes <= 1:
                     env.require(not M.partial_sig_verify(s32.raw, p66.raw, pk33[bound], rsessions[1 - st_["session"]]),
                                 "%s: partial signature verifies under the other session too" % where, step=si)
                 classes.add("sign_success")
@@ -414,10 +511,12 @@ def run_random(env, case):
 
 TESTS = [
     Test("histories", histories, run_enum, kind="enum", max_workers=4,
-         must_cover=["sign_success", "reuse_after_success", "sign_attempt_after_failed_call", "failed_gen_over_live_nonce",
+         must_cover=["gen_alias_extra", "gen_alias_seckey", "offset:odd", "offset:even_unaligned", "offset:aligned16", "reuse_zeroed_rand_refused",
+                     "reuse_rand_left_by_failed_gen", "sign_success", "reuse_after_success", "sign_attempt_after_failed_call", "failed_gen_over_live_nonce",
                      "failing_sign_on_live:sign_negated_key", "failing_sign_on_live:sign_null_out", "failing_sign_on_live:sign_other_key",
                      "failing_sign_on_live:sign_bad_cache", "failing_sign_on_live:sign_bad_session", "failing_sign_on_live:sign_null_keypair"]),
     Test("random_histories", random_history, run_random, quick=400, thorough=10000, max_workers=4,
-         must_cover=["sign_success", "failing_sign_on_live:neg", "failing_sign_on_live:null_out", "failed_gen_over_live", "sign_attempt_on_dead_nonce",
+         must_cover=["gen_alias_extra", "gen_alias_seckey", "secnonce_at_odd_address", "rand_at_odd_address", "reuse_wiped_rand_buffer",
+                     "sign_success", "failing_sign_on_live:neg", "failing_sign_on_live:null_out", "failed_gen_over_live", "sign_attempt_on_dead_nonce",
                      "gen_ok_counter", "gen_ok_rand", "reuse_rand_buffer"]),
 ]
